@@ -1,6 +1,9 @@
 import MJ.Proofs.SerdeRT
 import MJ.Proofs.SerdeHandles
 import MJ.Proofs.JsonStr
+import MJ.Proofs.JsonFull
+import MJ.Proofs.JsonFloat
+import MJ.Proofs.SerdeTotal
 /-!
 # C16 — values round-trip through serde; `tojson` emits valid, HTML-safe JSON
 
@@ -32,7 +35,15 @@ def C16_full : Prop :=
   (∀ (s rest : List Char), parseStrBody (tojson (escBody s) ++ '"' :: rest) = some (s, rest)) ∧
   (∀ (s rest : List Char), parseStrBody (escBody s ++ '"' :: rest) = some (s, rest)) ∧
   (∀ (s : List Char), parseJ (tojson (writeJ .jinja (.str s))) = some (.str s)) ∧
-  (∀ (s : List Char), parseJ (writeJ .compact (.str s)) = some (.str s))
+  (∀ (s : List Char), parseJ (writeJ .compact (.str s)) = some (.str s)) ∧
+  -- (6) whole documents: for every value that has a JSON image (keys by string form, none / undefined /
+  --     non-finite floats null, bytes as numbers, integers of every width, finite floats by their token),
+  --     the text written by any of the engine's formatters — compact, Jinja separators, pretty with
+  --     every indent — and post-processed by tojson (or not: auto-escaping) reads back as that image
+  (∀ (v : V) (st : Style) (j : J), jsonOf v = .ok j →
+      parseJ (tojson (writeJ st j)) = some j ∧ parseJ (writeJ st j) = some j) ∧
+  -- (7) `de` decides every object-free value for every shape without embedded `Value`s
+  (∀ (s : Shape) (v : V), valueFree s = true → objFree v = true → de s v ≠ .error .unmodelled)
 
 /-! ## (1) round trip -/
 
@@ -173,10 +184,79 @@ theorem autoescape_parses_back (s : List Char) : parseJ (writeJ .compact (.str s
 example : parseJ (tojson (writeJ .jinja (.str "</script>\\ud800\n".toList))) = some (.str "</script>\\ud800\n".toList) :=
   tojson_parses_back _
 
+/-! ## (6) whole documents -/
+
+/-- any JSON value whose number tokens are well-formed, written in any style and made HTML-safe,
+reads back as itself -/
+theorem document_parses_back (st : Style) (j : J) (hj : NumOK j) :
+    parseJ (tojson (writeJ st j)) = some j ∧ parseJ (writeJ st j) = some j := by
+  refine ⟨parseJ_postT_writeJ MJ.Gen.tojsonReplacements tojson_table_ok structOK_tojson st j hj, ?_⟩
+  have := parseJ_postT_writeJ [] tableOK_nil structOK_nil st j hj
+  rwa [postT_nil] at this
+
+/-- `{{ v|tojson }}`, `{{ v|tojson(indent) }}` for every indent, and `{{ v }}` under JSON
+auto-escaping: for every value without finite floats the emitted text parses back to the value's
+JSON image (nested arrays / objects, non-string keys by their string form, none / undefined /
+non-finite floats null, bytes as numbers, integers of every width incl. 128 bit) -/
+theorem tojson_parses_back_full (v : V) (st : Style) (j : J) (hff : floatFreeV v = true)
+    (hj : jsonOf v = .ok j) : parseJ (tojson (writeJ st j)) = some j ∧ parseJ (writeJ st j) = some j :=
+  document_parses_back st j
+    (jsonOf_numOK v (fun _ => false) j (by intro b hb; simp at hb) hff hj)
+
+/-- with finite floats as well: the float printer (`f64Text`, ryu's shortest round-trip text laid
+out by `format64`) always yields a JSON number token, so the document reads back with that very
+token.  (That the token *denotes* the same double is checked bit-exactly by the differential run
+against Python's correctly rounded reader, not proved.) -/
+theorem float_text_is_json_number (bits : Nat) : tokOK (f64Text bits) := tokOK_f64Text bits
+
+theorem tojson_parses_back_all (v : V) (st : Style) (j : J) (hj : jsonOf v = .ok j) :
+    parseJ (tojson (writeJ st j)) = some j ∧ parseJ (writeJ st j) = some j :=
+  document_parses_back st j
+    (jsonOf_numOK v (fun _ => true) j (fun b _ _ => tokOK_f64Text b) (floatsAll_true v) hj)
+
+/-- the iteration order of the BTreeMap build only permutes the members -/
+theorem map_order_is_permutation (kvs : List (V × V)) : (sortEntries kvs).Perm kvs := by
+  have hins : ∀ (p : V × V) (l : List (V × V)), (insertSorted p l).Perm (p :: l) := by
+    intro p l
+    induction l with
+    | nil => simp [insertSorted]
+    | cons q qs ih =>
+      simp only [insertSorted]
+      split
+      · exact List.Perm.refl _
+      · exact (List.Perm.cons q ih).trans (List.Perm.swap p q qs)
+  induction kvs with
+  | nil => simp [sortEntries]
+  | cons p ps ih =>
+    simp only [sortEntries, List.foldr_cons] at ih ⊢
+    exact (hins p _).trans (List.Perm.cons p ih)
+
+def exValue : V :=
+  .map [(.str "k<".toList false, .seq false [.int true 18446744073709551615, .none, .bool true, .undefined]),
+        (.int false (-1), .map [(.bool true, .str "</script>'&".toList true), (.str [] false, .bytes [0, 255])]),
+        (.int true 340282366920938463463374607431768211455, .seq true []),
+        (.str "nan".toList false, .f64 9221120237041090560)]
+
+example : floatFreeV exValue = true := by decide
+example : ∃ j, jsonOf exValue = .ok j := ⟨_, rfl⟩
+
+/-! ## (7) the deserializer model decides everything but objects -/
+
+/-- for every shape without embedded `Value` fields and every value without dynamic objects, `de`
+returns `ok d` or the error class `err` (never the `unmodelled` marker): serde's lenient conversions
+(integer ranges, integer → float, bytes ↔ string ↔ sequence, identifiers by name / index / bytes,
+unit from none / undefined) are all inside the model -/
+theorem de_total_classification (s : Shape) (v : V) (hs : valueFree s = true) (hv : objFree v = true) :
+    de s v ≠ .error .unmodelled :=
+  decided_de s v hs hv
+
+example : valueFree exShape = true ∧ objFree (ser exShape exData) = true := ⟨by decide, by rfl⟩
+
 /-- the full statement holds for the model -/
 theorem c16_full : C16_full :=
   ⟨de_ser_roundtrip, value_embedding_identity, value_embedding_in_context, registry_remove_insert,
    registry_frame, registry_no_residue, tojson_alphabet, tojson_string_parses_back,
-   autoescape_string_parses_back, tojson_parses_back, autoescape_parses_back⟩
+   autoescape_string_parses_back, tojson_parses_back, autoescape_parses_back,
+   tojson_parses_back_all, de_total_classification⟩
 
 end MJ.C16
